@@ -301,6 +301,12 @@ def path_origins(body, blocks, local, upto, depth=0):
             return [("not", tuple(path_origins(body, blocks, operand_local(x["args"][0]), i, depth + 1)))]
         return [("call", callee_base(x), blocks[i], x)] if x["callee"] else []
     rv = x["rv"]
+    if x.get("ret_of"):
+        # the return of a spliced-in callee: the value is the callee's result (the call itself stays visible) as well as what the callee computed
+        cn, cbb = x["ret_of"]
+        ct = body.term(cbb)
+        inner = path_origins(body, blocks, rv["op"]["place"]["local"], i, depth + 1) if rv["k"] == "use" and rv["op"]["k"] in ("copy", "move") else []
+        return ([("call", callee_base(ct), cbb, ct)] if ct["k"] == "call" and ct["callee"] else []) + inner
     if rv["k"] == "use" and rv["op"]["k"] == "const":
         return [("const", rv["op"]["val"])]
     if rv["k"] == "use" and rv["op"]["k"] in ("copy", "move") and not [p for p in rv["op"]["place"]["proj"] if p["k"] != "deref"]:
